@@ -91,7 +91,7 @@ def bounded(tier, seed):
                                 'from specs.c17_listing import replay_listing\nsys.exit(replay_listing(%r, %r, %r))\n' % (bad, top_paths, np, inner_paths, VERIF, list(top_paths), np, inner_paths))
                     viol.append({'what': bad + ' (top-level %r, nested site at %r with %r)' % (top_paths, np, inner_paths), 'replay': path})
     copy_standin = copy_conformance()
-    return [copy_standin, {'name': 'C17/discovery-lists-routable-full-paths', 'tool': 'bounded enumeration (native Site objects)',
+    return [copy_standin, filter_conformance(tier), {'name': 'C17/discovery-lists-routable-full-paths', 'tool': 'bounded enumeration (native Site objects)',
              'bound': 'pairs of top-level paths over %r up to 2 components x 3 nesting points x 4 inner layouts' % comps,
              'inputs_tried': n, 'samples': samples, 'violations': viol, 'known': [{'id': k, 'what': v} for k, v in known.items()], 'counted_as_proved': False}]
 
@@ -174,3 +174,94 @@ def copy_conformance():
                 viol.append({'what': 'Message.copy(%s): option view %s of the copy is %r, expected %r' % ('%s=%r' % (v, other) if override else '', v, getattr(c.opt, v), want), 'replay': path})
     return {'name': 'C17/message-copy-conformance (A-COPYOPT)', 'tool': 'bounded enumeration (native)', 'bound': '%d option views x with/without override' % len(samples),
             'inputs_tried': n, 'samples': [{'view': 'uri_path', 'value': ('a', ''), 'override': ('b',)}], 'violations': viol, 'counted_as_proved': False}
+
+
+def filter_conformance(tier='quick'):
+    """RFC 6690 section 4.1 filtering of /.well-known/core on a real Site + WKCResource: a query `attr=pattern` returns exactly the
+    links one of whose values for that attribute (space separated for rt / if) equals the pattern, or starts with it when it ends
+    in '*'; href is matched as a whole.  The oracle below is written from the RFC, values include '=' and spaces.  Bounded."""
+    import asyncio, os
+    from aiocoap import resource, Message, GET
+    from aiocoap.message import Direction
+    from aiocoap.util.linkformat import parse
+    VERIF = os.path.dirname(os.path.dirname(os.path.abspath(__file__)))
+
+    class Leaf(resource.Resource):
+        def __init__(self, **desc):
+            super().__init__()
+            self.desc = desc
+
+        def get_link_description(self):
+            return dict(self.desc)
+
+    class Remote:
+        is_multicast = is_multicast_locally = False
+
+    table = {('sensors', 'temp'): {'rt': 'temperature-c', 'if': 'sensor'},
+             ('sensors', 'light'): {'rt': 'light-lux urn:dev:type=light', 'if': 'sensor'},
+             ('cfg', 'mode=fast'): {'rt': 'config', 'title': 'a=b'},
+             ('cfg', 'x'): {'rt': 'config urn:dev:type=other', 'title': 'plain'},
+             (): {'rt': 'root'}}
+    inner = {('more', ''): {'rt': 'temperature-f'}, (): {'rt': 'urn:dev:type=light'}}
+
+    def build():
+        root, sub = resource.Site(), resource.Site()
+        for p, d in table.items():
+            root.add_resource(p, Leaf(**d))
+        for p, d in inner.items():
+            sub.add_resource(p, Leaf(**d))
+        root.add_resource(('batch',), sub)
+        wkc = resource.WKCResource(root.get_resources_as_linkheader, impl_info=None)
+        return root, wkc
+    links = {('/' + '/'.join(p)): d for p, d in table.items()}
+    links.update({('/batch' + '/' + '/'.join(p)): d for p, d in inner.items()})
+
+    def oracle(attr, pattern):
+        def m(x):
+            return x.startswith(pattern[:-1]) if pattern.endswith('*') else x == pattern
+        out = set()
+        for href, d in links.items():
+            if attr == 'href':
+                vals = [href]
+            else:
+                v = d.get(attr)
+                vals = [] if v is None else (v.split(' ') if attr in ('rt', 'if') else [v])
+            if any(m(x) for x in vals):
+                out.add(href)
+        return out
+    patterns = {'rt': ['temperature-c', 'temperature-*', 'config', 'urn:dev:type=light', 'urn:dev:type=*', 'urn:dev:*', 'nothing', '*', 'light-lux'],
+                'if': ['sensor', 'sens*', 'x'], 'title': ['a=b', 'a=*', 'plain', 'a'], 'href': ['/cfg/mode=fast', '/cfg/*', '/sensors/temp', '/batch/*', '/', '/nothing']}
+    viol, n, samples = [], 0, []
+    for attr, ps in patterns.items():
+        for pat in ps:
+            n += 1
+            root, wkc = build()
+            req = Message(code=GET, uri_query=('%s=%s' % (attr, pat),))
+            req.direction, req.remote = Direction.INCOMING, Remote()
+            try:
+                resp = asyncio.run(wkc.render_get(req))
+                got = {l.href for l in parse(resp.payload.decode('utf8')).links}
+            except Exception as e:
+                got = 'ERR %r' % (e,)
+            want = oracle(attr, pat)
+            if len(samples) < 3 and '=' in pat:
+                samples.append({'query': '%s=%s' % (attr, pat), 'returned': sorted(got) if isinstance(got, set) else got})
+            if got != want and len(viol) < 8:
+                path = os.path.join(VERIF, 'replays', 'C17-filter-%d.py' % (len(viol) + 1))
+                os.makedirs(os.path.dirname(path), exist_ok=True)
+                with open(path, 'w') as f:
+                    f.write('#!/venv/bin/python\n"""C17 replay (bounded stand-in, RFC 6690 filter): query %s=%s"""\nimport sys, os\nsys.path.insert(0, %r); sys.path.insert(0, os.environ.get("VERIF_REPO", "/repo"))\n'
+                            'from specs.c17_listing import replay_filter\nsys.exit(replay_filter(%r, %r))\n' % (attr, pat, VERIF, attr, pat))
+                viol.append({'what': 'GET /.well-known/core?%s=%s returns %s, RFC 6690 filtering gives %s' % (attr, pat, sorted(got) if isinstance(got, set) else got, sorted(want)), 'replay': path})
+    return {'name': 'C17/wkc-filter-returns-the-matching-subset', 'tool': 'bounded enumeration (native Site + WKCResource)', 'bound': '%d single-filter queries over 7 links' % n,
+            'inputs_tried': n, 'samples': samples, 'violations': viol, 'counted_as_proved': False}
+
+
+def replay_filter(attr, pat):
+    b = filter_conformance()
+    bad = [v for v in b['violations'] if ('?%s=%s ' % (attr, pat)) in v['what']]
+    for v in bad:
+        print(v['what'])
+    if not bad:
+        print('query %s=%s returns the RFC 6690 subset' % (attr, pat))
+    return 1 if bad else 0
